@@ -13,10 +13,32 @@ use std::time::{Duration, Instant};
 
 pub const VERIF_DIR: &str = "/verif";
 
-/// Where evidence, replays and scratch files go (default /verif; the mutation self-test
+/// Root of the verification tree this binary belongs to: the directory that contains `harness/`
+/// (derived from the executable's own path, so that a snapshot of /verif is self-contained);
+/// HCVERIF_ROOT overrides; falls back to /verif.
+pub fn root_dir() -> std::path::PathBuf {
+    if let Ok(r) = std::env::var("HCVERIF_ROOT") {
+        return std::path::PathBuf::from(r);
+    }
+    if let Ok(exe) = std::env::current_exe() {
+        for a in exe.ancestors() {
+            if a.file_name().map(|n| n == "harness").unwrap_or(false) {
+                if let Some(p) = a.parent() {
+                    return p.to_path_buf();
+                }
+            }
+        }
+    }
+    std::path::PathBuf::from(VERIF_DIR)
+}
+
+/// Where evidence, replays and scratch files go (default: the root; the mutation self-test
 /// redirects it so that runs against seeded changes never overwrite real evidence).
 pub fn out_dir() -> std::path::PathBuf {
-    std::path::PathBuf::from(std::env::var("HCVERIF_OUT_DIR").unwrap_or_else(|_| VERIF_DIR.to_string()))
+    match std::env::var("HCVERIF_OUT_DIR") {
+        Ok(d) => std::path::PathBuf::from(d),
+        Err(_) => root_dir(),
+    }
 }
 
 #[derive(Clone, Debug)]
@@ -298,7 +320,7 @@ pub struct Known {
 }
 
 pub fn load_known() -> Vec<Known> {
-    let p = Path::new(VERIF_DIR).join("known_findings.json");
+    let p = root_dir().join("known_findings.json");
     let mut out = vec![];
     if let Ok(s) = std::fs::read_to_string(p) {
         if let Ok(v) = serde_json::from_str::<Value>(&s) {
